@@ -81,6 +81,14 @@ def run(ctx: core.Ctx):
             ctx.violation(f"{op}.compute/result-aliased", {"op": op}, "the first result is unchanged by a later call", "modified", note="an earlier result array was overwritten by a later call of the same shape")
         elif again.shape != V.shape or not np.array_equal(again, V[::-1], equal_nan=True):
             ctx.violation(f"{op}.compute/formula/second-array-call", {"op": op}, "table (reversed)", "differs", note="a second array call of the same shape on the same object differs from the elementwise values")
+        # the result belongs to the caller: overwriting it must not change what a later call returns
+        mine = objs[op].compute(A.copy(), B.copy())
+        if isinstance(mine, np.ndarray) and mine.flags.writeable:
+            mine[...] = -7.0
+            ctx.count(1)
+            later = np.asarray(objs[op].compute(A.copy(), B.copy()), dtype=float)
+            if later.shape != V.shape or not np.array_equal(later, V, equal_nan=True):
+                ctx.violation(f"{op}.compute/result-shared-between-calls", {"op": op}, "table", "differs", note="after the caller overwrote the array returned by one call, the next call returns other values")
         # other forms of the same operands: read-only, views with strides, a column, 3-D, transposed / Fortran order, float32
         for (label, fa, back, shape), (_, fb, _, _) in zip(forms.variants(A, True), forms.variants(B, True)):
             ctx.count(1)
